@@ -74,6 +74,28 @@ def generate(seed, tier):
     # "ioerror": the disk fails once inside commit() (EIO, or ENOSPC with a short write) and the
     # process dies somewhere on the error path or right after commit() raised
     mode = "kill" if x < 0.25 else ("ioerror" if x < 0.4 else "enumerate")
+    fr = random.Random("%s/front" % seed)
+    if fr.random() < 0.15:
+        # "anywhere in a writer's life", for the BufferedWriter front-end: a sequence of calls with
+        # flushes wherever its limit puts them; every crash state must be the index after some
+        # whole number of calls - never a call half applied (an update's delete without its add)
+        from whoosim.session import cfg_from_record
+        from whoosim.workload import DocGen
+        mode = "buffered"
+        dg = DocGen(cfg_from_record(rec["config"]), fr, nkeys=8)
+        dg.next_uid = 300000
+        calls = []
+        for _ in range(fr.randint(3, 10)):
+            c = fr.random()
+            if c < 0.45:
+                calls.append(["add", dg.doc()])
+            elif c < 0.8:
+                calls.append(["update", dg.doc()])
+            elif c < 0.92:
+                calls.append(["del_term", "k", u"k%03d" % fr.randrange(8)])
+            else:
+                calls.append(["bw_commit"])
+        rec["bw"] = {"limit": fr.choice((1, 2, 2, 3, 4)), "calls": calls}
     rec["crash"] = {"mode": mode, "max_states": TIERS[tier]["max_states"],
                     "iofault": {"skip": r.randint(0, 60), "errno": r.choice(("EIO", "ENOSPC")),
                                 "kinds": r.choice((["write"], ["write", "creat"], ["write", "creat", "rename"], ["rename"], ["unlink"])),
@@ -84,10 +106,12 @@ def generate(seed, tier):
 
 
 class Acceptable(object):
-    def __init__(self, gen, docs, field_names):
+    def __init__(self, gen, docs, field_names, by_content=False, label=None):
         self.gen = gen
         self.docs = docs
         self.field_names = field_names
+        self.by_content = by_content    # matched by what the index holds, whatever its generation number
+        self.label = label
 
 
 def recover_check(snap, acceptable, cfg, seed, merge, where, stats):
@@ -122,6 +146,8 @@ def _recover(so, acceptable, cfg, merge, where, stats, survivor_ix=None):
     except Exception as e:  # noqa
         raise Violation("reopen_ok", "%s: open_dir raised %s: %s" % (where, type(e).__name__, e),
                         sig="reopen_ok:" + exc_sig(e))
+    if acceptable and acceptable[0].by_content:
+        return _recover_by_content(so, ix, gen, acceptable, cfg, merge, where, stats)
     cands = [a for a in acceptable if a.gen == gen]
     if not cands:
         raise Violation("old_or_new", "%s: reopened index is at generation %s, acceptable %s"
@@ -149,6 +175,11 @@ def _recover(so, acceptable, cfg, merge, where, stats, survivor_ix=None):
                         % (where, gen, res[1]), sig="%s:%s" % (clause, res[0]))
     which = "new" if (len(acceptable) > 1 and gen == max(x.gen for x in acceptable)) else "old"
     stats["recovered_as_" + which] = stats.get("recovered_as_" + which, 0) + 1
+    _recover_tail(so, ix, gen, a, schema, cfg, merge, where, stats)
+
+
+def _recover_tail(so, ix, gen, a, schema, cfg, merge, where, stats):
+    from whoosh.index import LockError
     # writable_after
     try:
         w = ix.writer(timeout=0, **cfg.writer_kwargs())
@@ -199,6 +230,41 @@ def _recover(so, acceptable, cfg, merge, where, stats, survivor_ix=None):
                         % (where, sorted(orphans)[:6], sorted(segids)), sig="orphans_removed")
 
 
+def _recover_by_content(so, ix, gen, acceptable, cfg, merge, where, stats):
+    """Front-end transactions: the reopened index must equal the model after some whole number of
+    calls (one of ``acceptable``); which one is decided by content."""
+    match = None
+    first_diff = None
+    for a in reversed(acceptable):
+        schema = cfg.make_schema(a.field_names)
+        try:
+            r = ix.reader()
+        except (SimAbort, SimKilled, HarnessError):
+            raise
+        except Exception as e:  # noqa
+            raise Violation("reopen_ok", "%s: reader() raised %s: %s" % (where, type(e).__name__, e),
+                            sig="reopen_ok:reader:" + exc_sig(e))
+        try:
+            try:
+                res = compare_reader(r, a.docs, schema, a.field_names)
+            except Violation as v:
+                raise Violation("reopen_ok", "%s: generation %d unreadable: %s" % (where, gen, v.detail),
+                                sig="reopen_ok:" + v.sig)
+        finally:
+            r.close()
+        if not res:
+            match = a
+            break
+        if first_diff is None:
+            first_diff = (a.label, res)
+    if match is None:
+        raise Violation("old_or_new", "%s: the reopened index (generation %s) equals the index after none of the %d admissible whole numbers of calls (%s..%s); against %s: %s"
+                        % (where, gen, len(acceptable), acceptable[0].label, acceptable[-1].label, first_diff[0], first_diff[1][1]),
+                        sig="old_or_new:call_boundary:" + first_diff[1][0])
+    stats["recovered_at_call_boundary"] = stats.get("recovered_at_call_boundary", 0) + 1
+    _recover_tail(so, ix, gen, match, cfg.make_schema(match.field_names), cfg, merge, where, stats)
+
+
 def execute(record, trace=False):
     mode = record["crash"]["mode"]
     if mode == "kill":
@@ -238,7 +304,7 @@ def execute_enum(record, trace=False):
                     continue
                 snap = s.os.snapshot(proc, tear)
                 acc = ctx["acc"]
-                key = (snapshot_digest(snap, INDEX_DIR), tuple(a.gen for a in acc))
+                key = (snapshot_digest(snap, INDEX_DIR), tuple((a.gen, a.label) for a in acc))
                 if key in seen:
                     stats["duplicate_states_skipped"] = stats.get("duplicate_states_skipped", 0) + 1
                     continue
@@ -257,6 +323,8 @@ def execute_enum(record, trace=False):
                 ctx["phase"] = "commit_post_rename"
 
         skip_tx = record.get("capture_from_tx", 0)
+        if crash["mode"] == "buffered":
+            skip_tx = 10 ** 9    # the plain history only builds the index the BufferedWriter starts from
 
         def on_op(actor, i, op):
             if op[0] == "writer" and actor.w is None:
@@ -337,6 +405,8 @@ def execute_enum(record, trace=False):
         try:
             actor.ensure_index()  # index creation is not a writer transaction
             actor.run(record["ops"])
+            if crash["mode"] == "buffered":
+                _buffered_phase(s, actor, record, ctx, capture)
         except HistStop:
             pass
         except Violation as v:
@@ -402,6 +472,75 @@ def execute_enum(record, trace=False):
     if trace:
         res["log"] = run_log
     return res
+
+
+def _buffered_phase(s, actor, record, ctx, capture):
+    """A BufferedWriter's life under crash-state capture: construction, calls (with the flushes its
+    limit causes), explicit commits, close()."""
+    from whoosh.writing import BufferedWriter
+    bwc = record["bw"]
+    mi = s.model
+    ix = actor.ensure_index()
+    names = list(mi.field_names)
+    states = [Acceptable(None, list(mi.docs), names, by_content=True, label="0 calls")]
+    lb = 0
+
+    def guard(fn, what):
+        try:
+            return fn()
+        except (SimAbort, SimKilled, HarnessError, Violation):
+            raise
+        except Exception as e:  # noqa
+            raise Violation("frontend_raised", "BufferedWriter.%s raised %s: %s" % (what, type(e).__name__, e), sig="buffered:%s:%s" % (what, exc_sig(e)))
+    ctx["tx"] += 1
+    ctx["phase"] = "bw_open"
+    ctx["acc"] = [states[0]]
+    bw = guard(lambda: BufferedWriter(ix, period=None, limit=bwc["limit"], writerargs=dict(s.cfg.writer_kwargs())), "__init__")
+    def filt(d):
+        # the plain history may have removed fields the generated documents still carry
+        out = {}
+        for k_, v_ in d.items():
+            base = k_[1:].replace("stored_", "", 1).replace("_boost", "") if k_.startswith("_") else k_
+            if k_ == "_boost" or base in names:
+                out[k_] = v_
+        return out
+    for call in bwc["calls"]:
+        if call[0] in ("add", "update"):
+            call = [call[0], filt(call[1])]
+        elif call[0] == "del_term" and call[1] not in names:
+            continue
+        s.k.event("step", "bw." + call[0])
+        if call[0] != "bw_commit":
+            mw = mi.writer()
+            if call[0] == "add":
+                mw.add(call[1])
+            elif call[0] == "update":
+                mw.update(call[1])
+            else:
+                mw.delete_by_term(call[1], call[2])
+            mw.commit()
+            states.append(Acceptable(None, list(mi.docs), names, by_content=True, label="%d calls" % len(states)))
+        ctx["phase"] = "bw_" + call[0]
+        ctx["acc"] = states[lb:]    # the call in flight may or may not have reached the disk
+        if call[0] == "add":
+            guard(lambda: bw.add_document(**call[1]), "add_document")
+        elif call[0] == "update":
+            guard(lambda: bw.update_document(**call[1]), "update_document")
+        elif call[0] == "del_term":
+            guard(lambda: bw.delete_by_term(call[1], call[2]), "delete_by_term")
+        else:
+            guard(lambda: bw.commit(), "commit")
+            lb = len(states) - 1     # an explicit commit() returned: everything so far is durable
+        ctx["acc"] = states[lb:]
+        s.count("bw_calls")
+    ctx["phase"] = "bw_close"
+    ctx["acc"] = states[lb:]
+    guard(lambda: bw.close(), "close")
+    ctx["acc"] = [states[-1]]
+    ctx["phase"] = "returned"
+    capture("close() returned", inside=False)
+    ctx["phase"] = None
+    s.count("bw_lives")
 
 
 def _sample(record, todo):
